@@ -25,13 +25,13 @@ theorem specStat_eq (d : Disk) (p : Path) : specStat d p = headStat d (expReals 
 theorem realsOK_head {d : Disk} {p : Path} {rs : List Real} (h : RealsOK d p rs) :
     headStat d rs = specStat d p := by
   rw [specStat_eq]
-  rcases h with h | ⟨e, he, h⟩
+  rcases h with h | ⟨e, he, _, h⟩
   · rw [h]
   · rw [h, he]; rfl
 
 theorem realsOK_nonempty {d : Disk} {p : Path} {rs : List Real} (h : RealsOK d p rs) :
     rs = [] ↔ expReals d p = [] := by
-  rcases h with h | ⟨e, he, h⟩
+  rcases h with h | ⟨e, he, _, h⟩
   · rw [h]
   · rw [h, he]; simp
 
@@ -58,7 +58,7 @@ theorem head_present {s : St} (hc : Consistent s) {p : Path} {m : MNode} (hm : s
         have hd := hc.roots i this
         cases hn : s.disk.nodeAt i [] <;> simp_all [Node.isDir, Node.isAbsent]
       | cons n pp => exact expIdx_present s.disk n pp i (by rw [hi]; simp)
-  rcases hok with h | ⟨e, he, h⟩
+  rcases hok with h | ⟨e, he, _, h⟩
   · rw [hr] at h
     exact key r rest h.symm
   · rw [hr] at h
@@ -195,9 +195,7 @@ theorem lookupNode_spec (d : Disk) (pp : Path) (n : Name) :
     · refine ⟨fun a s' h => ?_, fun e s' h => ?_⟩ <;> simp [hn, fail] at h
       obtain ⟨_, rfl⟩ := h
       refine ⟨⟨hc, rfl⟩, ?_⟩
-      have : expReals s.disk (n :: pp) = [] :=
-        Classical.byContradiction fun hne => hn (hk.2 hne)
-      rw [specStat_eq, this]; rfl
+      exact Classical.byContradiction fun hne => hn (hk.2 hne)
 
 /-- `do_lookup(pp, n)` below a visible directory answers exactly what the disk dictates -/
 theorem doLookup_spec (d : Disk) (pp : Path) (n : Name) :
